@@ -92,6 +92,9 @@ def gen_world(rng, prop, long_dim=False):
     layout["row_index"] = rng.weighted([("range", 4), ("permuted", 2), ("offset", 1), ("repeated", 2)])
     layout["int_values"] = rng.chance(0.15)  # whole-number values in an integer typed column
     layout["blank_headers"] = rng.chance(0.5)
+    # "not known" for a whole category: NaN along one complete line of the table (one item of the spread dimension, or one label
+    # combination of the others) - entries like any other for to_df
+    layout["nan_line"] = rng.randint(1, 10 ** 6) if (prop == "C11" and rng.chance(0.07)) else 0
     layout["axis_name"] = rng.choice([None, None, "name", "letter"])
     # infinite entries (an unbounded capacity, a division by zero upstream) are values like any other
     layout["inf"] = rng.randint(1, 10 ** 6) if (rng.chance(0.08) and not long_dim and not layout["int_values"] and medium != "excel_reader") else 0
@@ -810,6 +813,20 @@ class IoChan(Engine):
                 del kw["sparse"]  # documented default: every entry is listed
             if wide is not None:
                 kw["dim_to_columns"] = dl[wide].name if world["vseed"] % 2 else dl[wide].letter
+            nan_line = bool(lay.get("nan_line")) and wide is not None and not sparse and len(dl) >= 2 and prop == "C11" and not lay.get("inf")
+            if nan_line:
+                v_ = np.array(X.values, dtype=float, copy=True)
+                k_ = lay["nan_line"]
+                sel = [slice(None)] * len(dl)
+                if k_ % 2:
+                    sel[wide] = k_ % shape[wide]                      # one whole column of the wide table
+                else:
+                    for ax in range(len(dl)):
+                        if ax != wide:
+                            sel[ax] = (k_ // (7 ** ax)) % shape[ax]   # one whole row
+                v_[tuple(sel)] = np.nan
+                X = FlodymArray(dims=dims, values=v_, name="X")
+                self._probe(st, "exported_array_with_a_line_of_nan")
             snap = X.values.copy()
             try:
                 df0 = X.to_df(**kw)
@@ -818,6 +835,33 @@ class IoChan(Engine):
                 raise Violation("to_df-lists-every-entry", f"to_df({kw}) raised {exc_class(e)} for an array over {dims.letters} shape {shape}",
                                 cls="to_df-raises", **tags)
             frame = frame_from_df(df0, dims, wide)
+            if nan_line:
+                # only the export is judged: every entry once under its labels, the NaN ones as empty cells (importing NaN is C12's matter)
+                self._cnt(st, "to_df-lists-every-entry")
+                imap_ = [{it: i for i, it in enumerate(d.items)} for d in dl]
+                seen_ = {}
+                for r in frame.rows:
+                    base_ = {c["dim"]: cell for c, cell in zip(frame.cols, r) if c["role"] == "dim"}
+                    for c, cell in zip(frame.cols, r):
+                        if c["role"] != "wide":
+                            continue
+                        lab_ = dict(base_)
+                        lab_[dl[wide].name] = c["item"]
+                        try:
+                            idx_ = tuple(imap_[k][lab_[d.name]] for k, d in enumerate(dl))
+                        except (KeyError, ValueError, TypeError):
+                            raise Violation("to_df-lists-every-entry", f"to_df lists a row with labels {lab_} that are not labels of the array", cls="to_df-wrong", **tags)
+                        if idx_ in seen_:
+                            raise Violation("to_df-lists-every-entry", f"to_df lists the entry {lab_} twice", cls="to_df-wrong", **tags)
+                        seen_[idx_] = cell
+                for idx_ in itertools.product(*[range(n) for n in shape]):
+                    v = float(X.values[idx_])
+                    if idx_ not in seen_:
+                        raise Violation("to_df-lists-every-entry", f"to_df(dim_to_columns=...) does not list entry {idx_} (value {v}) of an array "
+                                                                   f"holding a complete line of NaN", cls="to_df-wrong", nan_line=True, **tags)
+                    if (seen_[idx_] is None) != (v != v) or (v == v and seen_[idx_] != v):
+                        raise Violation("to_df-lists-every-entry", f"to_df lists {seen_[idx_]} for entry {idx_} whose value is {v}", cls="to_df-wrong", nan_line=True, **tags)
+                return
             if prop == "C11":
                 self._judge_to_df(st, frame, dims, X, wide, sparse, tags)
         else:
